@@ -1695,4 +1695,23 @@ def switch_bbox_epsg_axis_order""", 'C01.a'),
     {'id': 'E-C17o-D49-applied', 'patch': 'selftest/patches/C17o-D49-applied.diff', 'path': 'mapproxy/client/wms.py', 'find': '', 'replace': '',
      'expect': 'silent', 'props': ['C17'], 'origin': 'the repair of the known finding K2 (not applicable: five existing tests pin the old URL): with it the rule is satisfied'},
 
+    M('M-C14m-revert-D50-bbox', 'mapproxy/util/coverage.py', """        if self.bbox != other.bbox:
+            return False
+
+        # a clipping coverage cuts the image, it is not the same as one that only limits the requests
+        if bool(self.clip) != bool(other.clip):
+            return False
+""", """        if self.bbox != other.bbox:
+            return False
+""", 'C14.m', 'revert of fix D50 (bbox coverage)'),
+    M('M-C14m-revert-D50-geom', 'mapproxy/util/coverage.py', """        if not self.geom.equals(other.geom):
+            return False
+
+        # a clipping coverage cuts the image, it is not the same as one that only limits the requests
+        if bool(self.clip) != bool(other.clip):
+            return False
+""", """        if not self.geom.equals(other.geom):
+            return False
+""", 'C14.m', 'revert of fix D50 (polygon coverage)'),
+
 ]
